@@ -24,8 +24,15 @@ use std::{
 };
 
 use pocketscion::network::{
-    local::{external_as_registry::ExternalAsRegistry, receiver_registry::NetworkReceiverRegistry, simulator::LocalNetworkSimulation},
-    scion::{routing::LocalAsRoutingAction, topology::ScionRouter},
+    local::{external_as_registry::ExternalAsRegistry, receiver_registry::NetworkReceiverRegistry, receivers::Receiver, simulator::LocalNetworkSimulation},
+    scion::{
+        routing::{AsRoutingAction, LocalAsRoutingAction, ScionNetworkTime, spec::SpecRoutingLogic},
+        segment::registry::SegmentRegistry,
+        simulator::ScionNetworkSim,
+        topology::{ScionRouter, ScionTopology},
+        util::test_helper::test_topology,
+    },
+    simulator::NetworkSimulator,
 };
 use scion_stack::stack::{
     scmp_handler::{DefaultEchoHandler, ScmpErrorReceiver, ScmpHandler},
@@ -491,27 +498,52 @@ fn handlers_for(spec: &str, recs: &[Arc<Recorder>]) -> Vec<Box<dyn ScmpHandler>>
     v
 }
 
-/// run the real socket loop over `pkts`
-fn run_loop(rt: &tokio::runtime::Runtime, hspec: &str, nrecv: usize, pkts: &[Vec<u8>]) -> LoopOut {
+/// run the real socket loop over `pkts`.  `ctor = None`: a socket assembled by the harness with the handlers `hspec`
+/// (hook `socket_over_queues`); `ctor = Some(f)`: the socket the production constructor `ScionStack::<f>` returns (a real
+/// `ScionStack` over the in-memory underlay, hook `stack_over_queues`) – the handlers are then whatever stack.rs installs.
+fn run_loop(rt: &tokio::runtime::Runtime, hspec: &str, ctor: Option<&str>, nrecv: usize, pkts: &[Vec<u8>]) -> LoopOut {
     let recs: Vec<Arc<Recorder>> = (0..nrecv).map(|_| Arc::new(Recorder(Mutex::new(vec![])))).collect();
     let local = ScionSocketIpAddr::new(ia2(), IpAddr::V4(Ipv4Addr::new(10, 0, 0, 7)), 53);
     let mut out = LoopOut::default();
+    let fmt_dg = |buf: &[u8], n: usize, src: ScionSocketIpAddr| {
+        let (nib, hb) = host_nib_bytes(&ScionHostAddr::from(src.ip()));
+        format!("udp {} {} {} {} {}", hex(&buf[..n.min(buf.len())]), src.isd_asn().to_u64(), nib, hex(&hb), src.port())
+    };
     let r = catch(|| {
-        let (sock, q) = verif_scmp::socket_over_queues(local, handlers_for(hspec, &recs));
-        q.incoming.lock().unwrap().extend(pkts.iter().cloned());
         let mut buf = vec![0u8; 65535];
         let mut delivered = vec![];
-        loop {
-            match rt.block_on(sock.recv_from(&mut buf)) {
-                Ok((n, src)) => {
-                    let (nib, hb) = host_nib_bytes(&ScionHostAddr::from(src.ip()));
-                    delivered.push(format!("udp {} {} {} {} {}", hex(&buf[..n.min(buf.len())]), src.isd_asn().to_u64(), nib, hex(&hb), src.port()));
+        match ctor {
+            None => {
+                let (sock, q) = verif_scmp::socket_over_queues(local, handlers_for(hspec, &recs));
+                q.incoming.lock().unwrap().extend(pkts.iter().cloned());
+                while let Ok((n, src)) = rt.block_on(sock.recv_from(&mut buf)) {
+                    delivered.push(fmt_dg(&buf, n, src));
                 }
-                Err(_) => break,
+                let sent = q.sent.lock().unwrap().clone();
+                (delivered, sent)
             }
+            Some(f) => rt.block_on(async {
+                let (stack, q) = verif_scmp::stack_over_queues(local);
+                for r in &recs {
+                    verif_scmp::register_scmp_error_receiver(&stack, r.clone() as Arc<dyn ScmpErrorReceiver>);
+                }
+                q.incoming.lock().unwrap().extend(pkts.iter().cloned());
+                if f == "bind_path_unaware" {
+                    let sock = stack.bind_path_unaware(Some(local)).await.expect("bind_path_unaware over the queue underlay");
+                    while let Ok((n, src)) = sock.recv_from(&mut buf).await {
+                        delivered.push(fmt_dg(&buf, n, src));
+                    }
+                } else {
+                    // `bind` -> `bind_with_config(.., SocketConfig::default())`
+                    let sock = stack.bind(Some(local)).await.expect("bind over the queue underlay");
+                    while let Ok((n, src)) = sock.recv_from(&mut buf).await {
+                        delivered.push(fmt_dg(&buf, n, src));
+                    }
+                }
+                let sent = q.sent.lock().unwrap().clone();
+                (delivered, sent)
+            }),
         }
-        let sent = q.sent.lock().unwrap().clone();
-        (delivered, sent)
     });
     match r {
         Ok((d, s)) => {
@@ -551,9 +583,24 @@ fn parse_model(line: &str, nrecv: usize) -> Option<(Option<String>, Vec<Vec<u8>>
 }
 
 fn recv_stream(rng: &mut Rng, lean: &mut Lean, rep: &mut Report, rt: &tokio::runtime::Runtime, rounds: usize, corpus: &[Vec<u8>]) {
-    let hspecs = ["error,echo", "echo", "error", "echo,error"];
+    // harness-assembled sockets (every combination of the two shipped handlers) and the two production constructors of
+    // ScionStack, whose handler list is whatever stack.rs installs: the model's list for them is the generated
+    // STACK_SOCKET_HANDLERS entry (driver op `stackcfg`), which the translator reads off stack.rs
+    let mut configs: Vec<(String, Option<&str>)> = ["error,echo", "echo", "error", "echo,error"].iter().map(|h| (h.to_string(), None)).collect();
+    for f in ["bind_with_config", "bind_path_unaware"] {
+        let m = lean.ask(&format!("stackcfg {f}"));
+        let hs = if lean.enabled { m.clone() } else { (if f == "bind_with_config" { "error" } else { "-" }).to_string() };
+        if hs == "none" || hs == "bad-op" {
+            rep.disagree("stackcfg", json!({"constructor": f}), "ScionStack has this constructor", &m);
+            continue;
+        }
+        rep.notes.push(format!("handlers of ScionStack::{f} according to the generated table: {hs}"));
+        configs.push((hs.clone(), Some(f)));
+        configs.push((hs, Some(f)));
+    }
     for round in 0..rounds {
-        let hspec = hspecs[round % hspecs.len()];
+        let (hspec, ctor) = &configs[round % configs.len()];
+        let (hspec, ctor) = (hspec.as_str(), *ctor);
         let nrecv = if round == 0 { 2 } else { rng.below(4) as usize };
         let n = rng.range(3, 14) as usize;
         let mut rxs: Vec<Rx> = (0..n).map(|_| gen_rx(rng)).collect();
@@ -564,7 +611,7 @@ fn recv_stream(rng: &mut Rng, lean: &mut Lean, rep: &mut Report, rt: &tokio::run
             }
         }
         let pkts: Vec<Vec<u8>> = rxs.iter().map(|r| r.bytes.clone()).collect();
-        let whole = run_loop(rt, hspec, nrecv, &pkts);
+        let whole = run_loop(rt, hspec, ctor, nrecv, &pkts);
         rep.traces += 1;
         if whole.panicked {
             rep.spec_fail("C14:panic", "the socket receive loop panicked", json!({"packets": pkts.iter().map(|p| hex(p)).collect::<Vec<_>>(), "handlers": hspec}));
@@ -574,7 +621,7 @@ fn recv_stream(rng: &mut Rng, lean: &mut Lean, rep: &mut Report, rt: &tokio::run
         let mut cat = LoopOut { reports: vec![vec![]; nrecv], ..Default::default() };
         let mut model_cat = LoopOut { reports: vec![vec![]; nrecv], ..Default::default() };
         for rx in &rxs {
-            let one = run_loop(rt, hspec, nrecv, std::slice::from_ref(&rx.bytes));
+            let one = run_loop(rt, hspec, ctor, nrecv, std::slice::from_ref(&rx.bytes));
             cat.delivered.extend(one.delivered.clone());
             cat.sent.extend(one.sent.clone());
             for (i, r) in one.reports.iter().enumerate() {
@@ -584,8 +631,9 @@ fn recv_stream(rng: &mut Rng, lean: &mut Lean, rep: &mut Report, rt: &tokio::run
             let line = lean.ask(&format!("recv {hspec} {nrecv} {} {rv}", hex(&rx.bytes)));
             let dec = decodable(&rx.bytes);
             let class = classify_rx(&rx.bytes);
-            rep.case(&format!("{}|{}|{hspec}|{nrecv}", hex(&rx.bytes[..rx.bytes.len().min(96)]), rx.bytes.len()), dec && class != "other");
+            rep.case(&format!("{}|{}|{hspec}|{}|{nrecv}", hex(&rx.bytes[..rx.bytes.len().min(96)]), rx.bytes.len(), ctor.unwrap_or("-")), dec && class != "other");
             rep.hit(&format!("recv gen {}", rx.label));
+            rep.hit(&format!("recv socket {}", ctor.map(|f| format!("ScionStack::{f}")).unwrap_or_else(|| format!("assembled [{hspec}]"))));
             rep.hit(&format!("recv class {class}"));
             let im_line = if !dec {
                 "undecodable".to_string()
@@ -619,7 +667,7 @@ fn recv_stream(rng: &mut Rng, lean: &mut Lean, rep: &mut Report, rt: &tokio::run
                     }
                 }
             }
-            oracle_rx(rep, rx, hspec, nrecv, &one, class);
+            oracle_rx(rep, rx, hspec, ctor, nrecv, &one, class);
         }
         // no cross-packet state: the whole run is the concatenation of the single runs
         if whole != cat {
@@ -627,7 +675,7 @@ fn recv_stream(rng: &mut Rng, lean: &mut Lean, rep: &mut Report, rt: &tokio::run
         }
         // UDP delivery is unaffected by SCMP traffic
         let no_scmp: Vec<Vec<u8>> = pkts.iter().filter(|p| !(decodable(p) && p[4] == 202)).cloned().collect();
-        let plain = run_loop(rt, hspec, nrecv, &no_scmp);
+        let plain = run_loop(rt, hspec, ctor, nrecv, &no_scmp);
         if plain.delivered != whole.delivered {
             rep.spec_fail("C14:udp-delivery-affected", "the datagram sequence delivered with SCMP packets interleaved differs from the one without them", json!({"handlers": hspec, "packets": pkts.iter().map(|p| hex(p)).collect::<Vec<_>>()}));
         }
@@ -682,11 +730,20 @@ fn classify_rx(b: &[u8]) -> &'static str {
     }
 }
 
-fn oracle_rx(rep: &mut Report, rx: &Rx, hspec: &str, nrecv: usize, one: &LoopOut, class: &'static str) {
+fn oracle_rx(rep: &mut Report, rx: &Rx, hspec: &str, ctor: Option<&str>, nrecv: usize, one: &LoopOut, class: &'static str) {
     let b = &rx.bytes;
-    let case = json!({"packet": hex(b), "handlers": hspec, "class": class, "gen": rx.label});
-    let has_echo = hspec.contains("echo");
-    let has_err = hspec.contains("error");
+    let case = json!({"packet": hex(b), "handlers": hspec, "socket": ctor.map(|f| format!("ScionStack::{f}")).unwrap_or_else(|| "assembled by the harness".into()), "class": class, "gen": rx.label});
+    // expectations for a production socket do not come from the generated table: a managed socket (bind/bind_with_config)
+    // must pass errors to the stack's receivers exactly once; whether a production socket answers echo requests is
+    // left open (none does today) - but if it answers, the answer must be the one correct echo reply
+    let has_echo = match ctor {
+        None => hspec.contains("echo"),
+        Some(_) => !one.sent.is_empty(),
+    };
+    let has_err = match ctor {
+        None => hspec.contains("error"),
+        Some(f) => f == "bind_with_config",
+    };
     if one.panicked {
         rep.spec_fail("C14:panic", "the socket receive loop panicked", case);
         return;
@@ -754,7 +811,7 @@ fn oracle_rx(rep: &mut Report, rx: &Rx, hspec: &str, nrecv: usize, one: &LoopOut
     match class {
         "scmp-error-known" if has_err => {
             let h = hdr_len(b);
-            let n_handlers = hspec.split(',').filter(|x| *x == "error").count();
+            let n_handlers = if ctor.is_some() { 1 } else { hspec.split(',').filter(|x| *x == "error").count() };
             for v in &one.reports {
                 if v.len() != n_handlers {
                     rep.spec_fail("C14:error-not-delivered-once", &format!("a receiver got {} reports for one well-formed SCMP error", v.len()), case.clone());
@@ -880,6 +937,360 @@ fn sim_stream(rng: &mut Rng, lean: &mut Lean, rep: &mut Report, rounds: usize, c
     }
 }
 
+// ---------------------------------------------------------------------------------------------
+// pocketscion, whole pipeline: the production entry point `NetworkSimulator::dispatch` (route through the topology, local
+// handling, reply routed back) decides itself *what* it quotes; the harness only supplies the packet.
+
+struct NetRecorder(Mutex<Vec<Vec<u8>>>);
+impl Receiver for NetRecorder {
+    fn receive_packet(&self, packet: &ScionRawPacketView) {
+        self.0.lock().unwrap().push(packet.as_slice().to_vec());
+    }
+}
+
+/// walks `bytes` AS by AS with the real `ScionNetworkSim::iter` (one step per iterator so that the packet is observable
+/// between steps) → (packet as it arrived at the AS that took the final decision, packet after that AS processed it,
+/// that AS, number of AS steps)
+fn net_walk(topo: &ScionTopology, bytes: &[u8], start: IsdAsn, now: u32, ignore_macs: bool) -> Option<(Vec<u8>, Vec<u8>, IsdAsn, usize, Option<(u8, u8, Vec<u8>)>)> {
+    let mut buf = bytes.to_vec();
+    let (mut cur_as, mut cur_if) = (start, 0u16);
+    for step in 1..200usize {
+        let before = buf.clone();
+        let (o, nxt) = {
+            let (v, _) = ScionRawPacketView::try_from_mut_slice(&mut buf).ok()?;
+            let mut it = ScionNetworkSim::iter::<SpecRoutingLogic>(topo, v, ScionNetworkTime::from_timestamp_secs(now), cur_as, cur_if, ignore_macs).ok()?;
+            let o = it.next();
+            (o, (it.get_processing_as(), it.get_processing_interface_id()))
+        };
+        match o {
+            Some(Ok(s)) if !s.finished => {
+                cur_as = nxt.0;
+                cur_if = nxt.1;
+            }
+            Some(Ok(s)) => {
+                let raised = match &s.action {
+                    AsRoutingAction::Local(LocalAsRoutingAction::SendSCMPErrorResponse(e)) => Some(err_parts(e)),
+                    _ => None,
+                };
+                return Some((before, buf, s.at_as, step, raised));
+            }
+            _ => return None,
+        }
+    }
+    None
+}
+
+/// (type, code, quoted bytes) of an SCMP error model
+fn err_parts(e: &ScmpErrorMessage) -> (u8, u8, Vec<u8>) {
+    match e {
+        ScmpErrorMessage::DestinationUnreachable(m) => (1, u8::from(m.code), m.get_offending_packet().to_vec()),
+        ScmpErrorMessage::PacketTooBig(m) => (2, 0, m.get_offending_packet().to_vec()),
+        ScmpErrorMessage::ParameterProblem(m) => (4, u8::from(m.code), m.get_offending_packet().to_vec()),
+        ScmpErrorMessage::ExternalInterfaceDown(m) => (5, 0, m.get_offending_packet().to_vec()),
+        ScmpErrorMessage::InternalConnectivityDown(m) => (6, 0, m.get_offending_packet().to_vec()),
+    }
+}
+
+/// which header fields differ between the packet as it arrived (`before`) and the quote `q`; the call site by (type, code)
+fn quote_diff(before: &[u8], q: &[u8], ty: u8, code: u8) -> (Vec<usize>, Vec<&'static str>, &'static str) {
+    let diff: Vec<usize> = (0..q.len().min(before.len())).filter(|i| before[*i] != q[*i]).collect();
+    let pstart = addr_end(before);
+    let (ninf, nhf) = if before.len() >= pstart + 4 && before[8] == 1 {
+        let m = &before[pstart..pstart + 4];
+        let w = u32::from_be_bytes([m[0], m[1], m[2], m[3]]);
+        let segs = [(w >> 12) & 63, (w >> 6) & 63, w & 63];
+        (segs.iter().filter(|x| **x > 0).count(), segs.iter().sum::<u32>() as usize)
+    } else {
+        (0, 0)
+    };
+    let field = |i: usize| -> &'static str {
+        if i < pstart || i >= hdr_len(before) {
+            "outside-path-header"
+        } else if i < pstart + 4 {
+            "pointer"
+        } else if i < pstart + 4 + 8 * ninf {
+            if matches!((i - pstart - 4) % 8, 2 | 3) { "segid" } else { "info-field-other" }
+        } else if i < pstart + 4 + 8 * ninf + 12 * nhf {
+            if (i - pstart - 4 - 8 * ninf) % 12 == 0 { "alert-flag" } else { "hop-field-other" }
+        } else {
+            "outside-path-header"
+        }
+    };
+    let mut fields: Vec<&'static str> = diff.iter().map(|i| field(*i)).collect();
+    fields.sort();
+    fields.dedup();
+    let site = match (ty, code) {
+        (1, 3) => "address-unreachable",
+        (4, 35) => "non-local-delivery",
+        (4, _) => "path-validation",
+        _ => "other-site",
+    };
+    (diff, fields, site)
+}
+
+fn net_stream(rng: &mut Rng, rep: &mut Report, rounds: usize) {
+    use sciparse::core::convert::ToModel;
+    use sciparse::dataplane_path::{standard::types::{HopFieldFlags, InfoFieldFlags}, view::ScionDpPathView};
+    let Ok(topo) = test_topology() else {
+        rep.notes.push("net stream: pocketscion test topology not available".into());
+        return;
+    };
+    let registry = SegmentRegistry::from_topology(&topo);
+    let now0: u32 = 1_700_000_000;
+    let ts = chrono::DateTime::<chrono::Utc>::from_timestamp(now0 as i64, 0).unwrap();
+    let ases: Vec<IsdAsn> = ["1-1", "1-11", "1-21", "2-1", "1-2", "1-3", "1-4", "1-12", "2-2", "2-3", "2-21"].iter().map(|s| s.parse().unwrap()).collect();
+    let mut honest: Vec<(IsdAsn, IsdAsn, StandardPath)> = vec![];
+    for a in &ases {
+        for b in &ases {
+            if a == b {
+                continue;
+            }
+            if let Ok(Ok(ps)) = catch(|| registry.paths(*a, *b, ts, &topo)) {
+                for p in ps.into_iter().take(4) {
+                    if let ScionDpPathView::Standard(v) = p.dp_path() {
+                        honest.push((*a, *b, v.to_model()));
+                    }
+                }
+            }
+        }
+    }
+    rep.hit_n("net honest paths", honest.len() as u64);
+    if honest.is_empty() {
+        return;
+    }
+    let src_ip = Ipv4Addr::new(10, 0, 0, 1);
+    let dst_ip = Ipv4Addr::new(10, 0, 0, 2);
+    let src_rec = Arc::new(NetRecorder(Mutex::new(vec![])));
+    let dst_rec = Arc::new(NetRecorder(Mutex::new(vec![])));
+    let mut with_dst = NetworkReceiverRegistry::new();
+    let mut without_dst = NetworkReceiverRegistry::new();
+    for a in &ases {
+        with_dst.add_receiver(*a, "10.0.0.1/32".parse().unwrap(), src_rec.clone()).unwrap();
+        with_dst.add_receiver(*a, "10.0.0.2/32".parse().unwrap(), dst_rec.clone()).unwrap();
+        without_dst.add_receiver(*a, "10.0.0.1/32".parse().unwrap(), src_rec.clone()).unwrap();
+    }
+    let externals = ExternalAsRegistry::new();
+    // the first rounds are directed (every honest path family gets: undeliverable host, foreign destination AS, one
+    // corrupted hop MAC in the first segment), the rest random
+    let directed = (3 * honest.len()).min(rounds / 3);
+    for round in 0..rounds {
+        let dir = if round < directed { Some(round % 3) } else { None };
+        let (src_ia, dst_ia0, p0) = if dir.is_some() { &honest[(round / 3) * honest.len() / (directed / 3).max(1) % honest.len()] } else { &honest[rng.below(honest.len() as u64) as usize] };
+        let mut path = p0.clone();
+        let mut dst_ia = *dst_ia0;
+        let mut now = now0 + 10;
+        let mut ignore = false;
+        let nseg = path.segments.len();
+        let si = if dir.is_some() { 0 } else { rng.below(nseg as u64) as usize };
+        let nh = path.segments[si].hop_fields.len();
+        let hi = if dir.is_some() { 1.min(nh - 1) } else { rng.below(nh as u64) as usize };
+        let mutation = match dir.map(|d| [0u64, 5, 2][d]).unwrap_or_else(|| rng.below(10)) {
+            0 | 1 => "none",
+            2 => {
+                let b = rng.below(48);
+                path.segments[si].hop_fields[hi].mac.0[(b / 8) as usize] ^= 1 << (b % 8);
+                "mac"
+            }
+            3 => {
+                now = *rng.pick(&[now0 - 1_000_000, now0 + 40 * 86400, now0 + 100 * 86400]);
+                "clock"
+            }
+            4 => {
+                ignore = true;
+                if rng.chance(1, 2) { path.segments[si].hop_fields[hi].cons_egress ^= 1 << rng.below(8) } else { path.segments[si].hop_fields[hi].cons_ingress ^= 1 << rng.below(8) };
+                "interface"
+            }
+            5 => {
+                dst_ia = *rng.pick(&ases);
+                "other-dst"
+            }
+            6 => {
+                path.segments[si].hop_fields[hi].flags.toggle(if rng.chance(1, 2) { HopFieldFlags::CONS_INGRESS_ROUTER_ALERT } else { HopFieldFlags::CONS_EGRESS_ROUTER_ALERT });
+                "alert"
+            }
+            7 => {
+                path.segments[si].info_field.segment_id ^= 1 << rng.below(16);
+                "segid"
+            }
+            8 => {
+                ignore = true;
+                path.segments[si].info_field.flags.toggle(InfoFieldFlags::CONS_DIR);
+                "consdir"
+            }
+            _ => {
+                path.segments[si].hop_fields[hi].expiration_units = 0;
+                now = now0 + *rng.pick(&[300u32, 400, 86400]);
+                "hop-expiry"
+            }
+        };
+        let src = ScionAddr::new(*src_ia, ScionHostAddr::V4(src_ip));
+        let dst = ScionAddr::new(dst_ia, ScionHostAddr::V4(dst_ip));
+        let dp = DpPath::Standard(path);
+        // payload
+        let (pl_label, bytes): (&str, Option<Vec<u8>>) = match if dir.is_some() { 0 } else { rng.below(8) } {
+            0 | 1 | 2 => {
+                let n = *rng.pick(&[0usize, 10, 400, 1100, 1300, 3000]);
+                ("udp", ScionUdpPacket::new(ScionSocketAddr::new(*src_ia, ScionHostAddr::V4(src_ip), 4000), ScionSocketAddr::new(dst_ia, ScionHostAddr::V4(dst_ip), 53), dp, rng.bytes(n)).try_encode_to_vec().ok())
+            }
+            3 => {
+                let n = rng.below(120) as usize;
+                let k = gk(rng);
+                ("scmp-error", ScionScmpPacket::new(src, dst, dp, k.msg(rng.bytes(n))).try_encode_to_vec().ok())
+            }
+            4 => {
+                let msg: ScmpMessage = ScmpEchoRequest::new(rng.next() as u16, rng.next() as u16, rng.bytes(24)).into();
+                ("echo-request", ScionScmpPacket::new(src, dst, dp, msg).try_encode_to_vec().ok())
+            }
+            5 => {
+                // malformed SCMP: message shorter than the fixed header of its type
+                let ty = *rng.pick(&[1u8, 2, 4, 5, 6, 3, 100, 128, 130]);
+                let n = *rng.pick(&[0usize, 1, 3, 7]);
+                let mut body = rng.bytes(n);
+                if n > 0 {
+                    body[0] = ty;
+                }
+                ("scmp-malformed", ScionRawPacket::new(src, dst, dp, ProtocolNumber::Scmp, body).try_encode_to_vec().ok())
+            }
+            6 => {
+                // well-formed SCMP error of a type outside the table
+                let ty = *rng.pick(&[0u8, 3, 7, 100, 127]);
+                let n = 8 + rng.below(40) as usize;
+                let mut body = rng.bytes(n);
+                body[0] = ty;
+                let b = ScionRawPacket::new(src, dst, dp, ProtocolNumber::Scmp, body).try_encode_to_vec().ok().map(|mut b| {
+                    fix_checksum(&mut b, 2);
+                    b
+                });
+                ("scmp-error-unknown", b)
+            }
+            _ => {
+                let n = rng.below(60) as usize;
+                ("other-proto", ScionRawPacket::new(src, dst, dp, ProtocolNumber::Tcp, rng.bytes(n)).try_encode_to_vec().ok())
+            }
+        };
+        let Some(bytes) = bytes else { continue };
+        let has_dst = if dir.is_some() { false } else { rng.chance(1, 2) };
+        let class = classify_rx(&bytes);
+        let walk = catch(|| net_walk(&topo, &bytes, *src_ia, now, ignore)).ok().flatten();
+        // the production pipeline
+        src_rec.0.lock().unwrap().clear();
+        dst_rec.0.lock().unwrap().clear();
+        let mut buf = bytes.clone();
+        let r = catch(|| {
+            let (v, _) = ScionRawPacketView::try_from_mut_slice(&mut buf).unwrap();
+            NetworkSimulator::new(if has_dst { &with_dst } else { &without_dst }, &externals, &topo, ignore).dispatch(*src_ia, 0, ScionNetworkTime::from_timestamp_secs(now), v);
+        });
+        let replies = src_rec.0.lock().unwrap().clone();
+        let delivered = dst_rec.0.lock().unwrap().len();
+        let case = json!({"stream": "net", "packet": hex(&bytes), "src_as": src_ia.to_string(), "dst_as": dst_ia.to_string(), "now": now, "ignore_macs": ignore, "dst_host_registered": has_dst,
+                          "mutation": mutation, "payload": pl_label, "class": class});
+        rep.case(&format!("net|{}|{}|{now}|{ignore}|{has_dst}", hex(&bytes[..bytes.len().min(160)]), bytes.len()), mutation != "none" || !has_dst);
+        rep.hit(&format!("net mutation {mutation}"));
+        rep.hit(&format!("net payload {pl_label} -> {} replies, {} delivered", replies.len(), delivered));
+        if r.is_err() {
+            rep.spec_fail("C14:panic", "NetworkSimulator::dispatch panicked", case.clone());
+            continue;
+        }
+        // the error as raised by the production routing step (whether or not a reply makes it back to the sender)
+        if let Some((before, after, at, steps, Some((ty, code, q)))) = &walk {
+            let whole = |x: &[u8]| q.as_slice() == x;
+            let verdict = if whole(before) { "as arrived" } else if whole(after) { "processed" } else { "neither" };
+            rep.hit(&format!("net raised {ty}/{code} by {mutation} after {} steps: quote {verdict}", steps.min(&6)));
+            match verdict {
+                "as arrived" => {}
+                "processed" => {
+                    let (diff, fields, site) = quote_diff(before, q, *ty, *code);
+                    let expected_fields = fields.iter().all(|f| matches!(*f, "segid" | "pointer" | "alert-flag"));
+                    for f in &fields {
+                        rep.hit(&format!("net processed-packet quote raised at {site}: {f} differs"));
+                    }
+                    rep.spec_fail(
+                        &if expected_fields { format!("C14:sim-quote-is-processed-packet:{site}") } else { format!("C14:sim-quote-is-processed-packet:{site}:{}", fields.join("+")) },
+                        &format!("the SCMP error (type {ty} code {code}) raised by the routing step of AS {at} quotes the packet as modified by that step's own path processing, not the offending packet as it arrived: {} bytes differ (offsets {:?}, fields {:?})", diff.len(), &diff[..diff.len().min(8)], fields),
+                        case.clone(),
+                    );
+                }
+                _ => rep.spec_fail("C14:error-quote", "the SCMP error raised by pocketscion's routing step quotes neither the packet as it arrived nor the packet as the step left it", case.clone()),
+            }
+            if class.starts_with("scmp-error") || class == "scmp-malformed" {
+                rep.hit("net error raised for an SCMP error / malformed SCMP (must not be answered)");
+            }
+        }
+        if replies.len() > 1 {
+            rep.spec_fail("C14:sim-more-than-one-reply", &format!("{} packets came back to the sender of one packet", replies.len()), case.clone());
+        }
+        for rp in &replies {
+            if !decodable(rp) || rp[4] != 202 {
+                rep.hit("net reply non-scmp");
+                continue;
+            }
+            let rh = hdr_len(rp);
+            if rp.len() < rh + 8 {
+                rep.spec_fail("C14:error-quote", "pocketscion sent an SCMP packet shorter than its fixed header", case.clone());
+                continue;
+            }
+            let ty = rp[rh];
+            if !checksum_ok(rp) {
+                rep.spec_fail("C14:checksum", "checksum of an SCMP packet delivered by pocketscion does not verify", case.clone());
+            }
+            if ty >= 128 {
+                rep.hit(&format!("net reply info type {ty}"));
+                continue;
+            }
+            rep.hit(&format!("net reply error type {ty} code {}", rp[rh + 1]));
+            if class.starts_with("scmp-error") {
+                rep.spec_fail("C14:reply-to-error", &format!("pocketscion answered an SCMP message of type {} (< 128) with an SCMP error", bytes[hdr_len(&bytes)]), case.clone());
+            }
+            if class == "scmp-malformed" {
+                rep.spec_fail("C14:reply-to-malformed", "pocketscion answered a malformed SCMP packet with an SCMP error", case.clone());
+            }
+            if rp.len() > MAX_ERR {
+                rep.spec_fail("C14:error-too-long", &format!("SCMP error packet delivered by pocketscion is {} bytes", rp.len()), case.clone());
+            }
+            let fixed = match ty { 5 => 20, 6 => 28, _ => 8 };
+            if rp.len() < rh + fixed {
+                continue;
+            }
+            let q = &rp[rh + fixed..];
+            let budget = MAX_ERR.saturating_sub(rh).saturating_sub(fixed);
+            match &walk {
+                None => rep.hit("net reply without a walk"),
+                Some((before, after, at, steps, _)) => {
+                    rep.hit(&format!("net error raised after {} AS steps", steps.min(&6)));
+                    let longest = |x: &[u8]| x.starts_with(q) && q.len() == x.len().min(budget);
+                    rep.hit(&format!("net by mutation: {mutation}{} -> {ty}/{} after {} steps: {}", if dir.is_some() { " (directed)" } else { "" }, rp[rh + 1], steps.min(&6), if longest(before) { "as arrived" } else if longest(after) { "processed" } else { "neither" }));
+                    if longest(before) {
+                        rep.hit("net quote = packet as it arrived");
+                    } else if longest(after) {
+                        let (diff, fields, site) = quote_diff(before, q, ty, rp[rh + 1]);
+                        let expected_fields = fields.iter().all(|f| matches!(*f, "segid" | "pointer" | "alert-flag"));
+                        for f in &fields {
+                            rep.hit(&format!("net processed-packet quote at {site}: {f} differs"));
+                        }
+                        rep.spec_fail(
+                            &if expected_fields { format!("C14:sim-quote-is-processed-packet:{site}") } else { format!("C14:sim-quote-is-processed-packet:{site}:{}", fields.join("+")) },
+                            &format!("the SCMP error (type {ty} code {}) of AS {at} quotes the packet as modified by that AS's own path processing, not the offending packet as it arrived: {} quoted bytes differ (offsets {:?}, fields {:?})", rp[rh + 1], diff.len(), &diff[..diff.len().min(8)], fields),
+                            case.clone(),
+                        );
+                    } else {
+                        rep.spec_fail("C14:error-quote", "the quote of pocketscion's SCMP error is neither a longest prefix of the packet as it arrived at the AS raising the error nor of the packet as that AS left it", case.clone());
+                    }
+                }
+            }
+            // addressed back to the sender
+            let b = &bytes;
+            let sl = host_len(b[9] & 15);
+            let dl = host_len(b[9] >> 4);
+            if rp[9] >> 4 != b[9] & 15 || rp[28..28 + sl] != b[28 + dl..28 + dl + sl] || rp[12..20] != b[20..28] {
+                rep.spec_fail("C14:reply-not-to-source", "pocketscion SCMP reply is not addressed to the packet's source", case.clone());
+            }
+        }
+        if rep.samples.len() < 6 && !replies.is_empty() && mutation != "none" {
+            rep.sample(json!({"stream": "net", "case": {"src_as": src_ia.to_string(), "dst_as": dst_ia.to_string(), "mutation": mutation, "payload": pl_label, "packet_len": bytes.len()}, "reply_len": replies[0].len()}));
+        }
+    }
+}
+
 fn main() {
     let args = Args::parse();
     quiet_panics();
@@ -899,7 +1310,7 @@ fn main() {
         rep.disagree("constants", json!("generated constants vs crate constants"), &format!("max {MAX_ERR} maxhdr 1020 scmp 202 udp 17"), &consts);
     }
     rep.notes.push(format!("model flags: {consts}"));
-    let rt = tokio::runtime::Builder::new_current_thread().build().unwrap();
+    let rt = tokio::runtime::Builder::new_current_thread().enable_all().build().unwrap();
     let corpus: Vec<Vec<u8>> = read_corpus(&args.corpus).iter().filter_map(|l| unhex(l.split_whitespace().next()?)).collect();
     rep.hit_n("corpus packets", corpus.len() as u64);
     if let Some(p) = &args.replay {
@@ -911,6 +1322,7 @@ fn main() {
         build_stream(&mut rng, &mut lean, &mut rep, args.scale(160, 4000));
         recv_stream(&mut rng, &mut lean, &mut rep, &rt, args.scale(500, 12000), &corpus);
         sim_stream(&mut rng, &mut lean, &mut rep, args.scale(3000, 80000), &corpus);
+        net_stream(&mut rng, &mut rep, args.scale(1500, 40000));
     }
     rep.write(&args.out);
     std::process::exit(if rep.ok() { 0 } else { 1 });
